@@ -544,6 +544,16 @@ pub fn preprocess_str<T: AsRef<Path>, U: AsRef<Path>, V: BuildHasher>(
                 let locate: Locate = x.try_into().unwrap();
                 let range = Range::new(locate.offset, locate.offset + locate.len);
                 ret.push(locate.str(&s), Some((path.as_ref(), range)));
+                // A one-line comment that is ended by the end of a macro expansion or of an included
+                // file (not by a newline) must not take in the text that follows the usage / directive.
+                let text = locate.str(&s);
+                if (resolve_depth > 0 || include_depth > 0)
+                    && text.starts_with("//")
+                    && !text.ends_with('\n')
+                {
+                    let end = locate.offset + locate.len;
+                    ret.push("\n", Some((path.as_ref(), Range::new(end - 1, end))));
+                }
             }
             NodeEvent::Enter(RefNode::Comment(x)) => {
                 // A stripped comment still separates the tokens around it:
